@@ -404,7 +404,8 @@ def eq_generators():
                                                                               stok(*rshape(rng))))(rshape(rng, 3)[0]) + inv(rng)
     G["primitivApplyTensorParameter"] = lambda rng: (lambda d: "%s %s %d" % (stok(d, 1), ttok(rng, d, 1), rng.choice([0, 1])))(rshape(rng, 3)[0]) + inv(rng)
     G["primitivGetParameterStats"] = lambda rng: (lambda d: "%s %s s:%s" % (stok(d, 1), ttok(rng, d, 1), rng.choice(["present", "no-such-stats", "m", "x.y"])))(rshape(rng, 3)[0])
-    G["primitivSaveParameter"] = lambda rng: (lambda d: "%s %s %d %d" % (stok(d, 1), ttok(rng, d, 1), rng.choice([0, 1]), rng.choice([0, 1])))(rshape(rng, 3)[0]) + inv(rng)
+    # with_stats is a PRIMITIV_C_BOOL: zero / non-zero, not 0 / 1
+    G["primitivSaveParameter"] = lambda rng: (lambda d: "%s %s %d %d" % (stok(d, 1), ttok(rng, d, 1), rng.choice([0, 1, 2, 256, 2147483648, U32MAX]), rng.choice([0, 1])))(rshape(rng, 3)[0]) + inv(rng)
     G["primitivAddParameterToModel"] = lambda rng: "s:%s s:%s" % (rng.choice(["a", "p", "w.x", "q"]), rng.choice(["a", "b", "sub", "q"]))
     G["primitivCreateModel"] = lambda rng: ""
     for nm in OPT_NAMES:
@@ -434,6 +435,15 @@ def fixed_eq_lines():
         for epoch, iv in ((0, 0), (U32MAX, U32MAX), (0, U32MAX), (U32MAX, 0)):
             out.append("eq %s F:0.5 F:0.25 %d F:1 F:0 F:0 s:Optimizer.epoch %d F:0 2" % (nm, epoch, iv))
         out.append("eq %s F:0 F:0 0 F:0 F:0 F:0 s:Optimizer.lr_scale 0 F:0 0" % nm)
+    # every accessor / in-place operation of a Tensor object once on the invalid tensor (-7) and once on a valid one
+    for nm in ("primitivCloneTensor", "primitivIsValidTensor", "primitivGetTensorShape", "primitivGetDeviceFromTensor",
+               "primitivEvaluateTensorAsArray", "primitivFlattenTensor", "primitivEvaluateTensorAsFloat"):
+        out.append("eq %s T:2,2/1:1,2,3,4 -7" % nm)
+        out.append("eq %s T:/1:5" % nm)
+    for nm in ("primitivGetTensorArgmax", "primitivGetTensorArgmin"):
+        out.append("eq %s T:2,2/1:1,2,3,4 0 -7" % nm)
+    for nm in ("primitivResetTensor", "primitivMultiplyTensorByConstantInplace"):
+        out.append("eq %s T:2/1:1,2 F:2 -7" % nm)
     for V in ("Tensor", "Node"):
         P = "primitivApply" + V
         # anisotropic: padding (1,0) stride (1,2) dilation (2,1) and the mirror image
@@ -692,6 +702,32 @@ def classify_key(line, impl, what):
 
 def harness_flags(st):
     return ["-I" + st["dispatch_dir"], "-DCAPI_GEN_" + st["dispatch_hash"]]
+
+
+def run_eq_leg(chk, select, per_case=None):
+    """The C API as one more public entry point of another property: for every hand-written equivalence case whose
+    wrapper name satisfies `select`, the C call and the corresponding C++ call run on the same inputs in harness h_capi
+    (status, message, all outputs; floats bitwise).  Implementation only — the wrapper table and its theorems are C20's."""
+    from translate import capi
+    with build.Lock("capi-gen"):
+        st = capi.generate(lock=False)
+    flags = harness_flags(st)
+    exe = build.build_harness("h_capi", extra_flags=flags)
+    per_case = per_case or (3 if chk.tier == "quick" else 40)
+    lines = [l for l in fixed_eq_lines() + eq_lines(chk.rng, per_case) if len(l.split()) > 1 and select(l.split()[1])]
+    seen = set()
+    lines = [l for l in lines if not (l in seen or seen.add(l))]
+    outs, reports = vrun.run_impl(exe, lines, timeout=900)
+    chk.traces += 1
+    judge = make_judge({})
+    for l, o in zip(lines, outs):
+        chk.count(l, o, o in ("ok same", "ok same error"))
+        what = judge(l, o, o)
+        if what:
+            chk.report(classify_key(l, o, what), "%s -> %s: %s" % (l[:200], o[:200], what),
+                       {"family": "capi", "harness": "h_capi", "lines": [l], "model_family": None, "observed_impl": o[:1500],
+                        "harness_flags": "see props/C20.py harness_flags (dispatch table generated by translate/capi.py)"})
+    chk.extra_cov["capi_equivalence_cases_run"] = len(lines)
 
 
 def run(chk):
